@@ -51,7 +51,9 @@ class llc (packet_base):
   def __str__ (self):
     #TODO: include field values!
     s = "[LLC"
-    if self.has_snap:
+    if not self.parsed:
+      s += " unparsed"
+    elif self.has_snap:
       s += "+SNAP t:%04x" % (self.eth_type,)
     else:
       s += " ssap:0x%02x dsap:0x%02x c:%s" % (self.ssap, self.dsap,
@@ -90,7 +92,7 @@ class llc (packet_base):
 
     self.parsed = True
 
-    if self.oui == '\0\0\0':
+    if self.oui == b'\0\0\0':
       self.next = ethernet.parse_next(self, self.eth_type, raw, self.length,
                                       allow_llc = False)
     else:
